@@ -33,6 +33,7 @@ CODES = {
     16: "during a canary the Canary-Paused condition is True but names another reason than the one the canary is paused for (status.reason)",
     17: "status.activeReplicaSet names a replica set that was not listed",
     18: "at rest status.desired is not the number of eligible nodes, or current/ready/available not the number of daemon pods",
+    118: "known finding D9 at rest: a vanished or ineligible node still on status.canary.nodes is counted in status.desired",
     19: "at rest status.upToDate is not the number of daemon pods of the up-to-date template",
     20: "harness panic",
 }
